@@ -14,14 +14,21 @@
 (* enabled methods are all "ok" MUST be accepted (result "", payload intact).                   *)
 (*                                                                                              *)
 (* The one-shot decision is embedded in a small state machine with an environment: a clock      *)
-(* (`now`) and the table of Basic-auth users (`users`).  A request can be presented, the clock   *)
-(* can advance, the cluster store can deliver a new snapshot of the credentials (ETCD mode:      *)
-(* etcdUserCache.WatchChanges <- Syncer.SyncPrefix), the same request can be presented again.    *)
-(* JWT time validity (exp / nbf) is a function of the clock and Basic validity a function of     *)
-(* the table, so "accepted now, rejected after exp, never before nbf" and "accepted, then the    *)
-(* credential is removed or changed, then rejected" are temporal theorems of the contract.       *)
+(* (`now`), the table of Basic-auth users (`users`) and the credential material of the current  *)
+(* spec (`mat`: which JWT secret is configured, which access keys with which secret).  A request *)
+(* can be presented, the clock can advance, the cluster store can deliver a new snapshot of the  *)
+(* credentials (ETCD mode: etcdUserCache.WatchChanges <- Syncer.SyncPrefix), the filter can be   *)
+(* RECONFIGURED (hot update: a new generation is created from a new spec and initialised with    *)
+(* Inherit(previous generation), as the pipeline does; the new spec may rotate the JWT secret,   *)
+(* change the algorithm, add / remove / re-key access keys, change the Basic users, switch       *)
+(* methods on and off), the same request can be presented again.                                 *)
+(* JWT time validity (exp / nbf) is a function of the clock, Basic validity a function of the    *)
+(* table, everything else a function of the CURRENT spec, so "accepted now, rejected after exp,  *)
+(* never before nbf", "accepted, then the credential is removed or changed, then rejected" and   *)
+(* "accepted, then the secret is rotated by a hot update, then rejected" are temporal theorems.  *)
 (* The handler itself (Validator.Handle) is one atomic step: it reads the request, consults     *)
-(* immutable configuration and returns; there is no shared mutable state between requests.      *)
+(* the configuration of its generation and returns; by the contract nothing a generation (or a   *)
+(* previous request) has seen influences the verdict.                                            *)
 EXTENDS Integers, Sequences, FiniteSets
 
 CONSTANTS Cfgs,          \* set of configuration records to explore
@@ -29,7 +36,10 @@ CONSTANTS Cfgs,          \* set of configuration records to explore
           Now0,          \* initial clock value
           MaxNow,        \* the clock advances up to MaxNow
           MaxPresent,    \* number of requests presented in one behaviour
-          MaxSync        \* number of credential snapshots delivered in one behaviour
+          MaxSync,       \* number of credential snapshots delivered in one behaviour
+          Recfgs(_, _),  \* Recfgs(c, e): the hot updates explored from configuration c in environment e:
+                         \* records [cfg, mat, users] (new spec; the users its Basic source then holds)
+          MaxReconf      \* number of hot updates in one behaviour
 
 ----------------------------------------------------------------------------------------------
 (* Shapes.                                                                                      *)
@@ -71,8 +81,24 @@ NoSg == [p |-> FALSE, carrier |-> "-", key |-> "-", age |-> "-", pexp |-> "-", c
 Sg(carrier, key, age, pexp, cexcl, body, mut) ==
     [p |-> TRUE, carrier |-> carrier, key |-> key, age |-> age, pexp |-> pexp, cexcl |-> cexcl,
      body |-> body, mut |-> mut]
-SgKeys == {"id0", "id1", "id0wrongsecret", "unknown"}
+(* key classes: id0 / id1: a configured access key id with its FIRST secret ("v1", configured   *)
+(* initially); id0v2 / id1v2: the id with its second secret (configured only after a hot update  *)
+(* re-keyed it); id0wrongsecret: id0 with a secret that is never configured; unknown: an id that *)
+(* is never configured (with the secret of a configured one); noid: the EMPTY access key id      *)
+(* signed with the empty secret; noidsecret: the empty id with a configured secret; id0nosecret: *)
+(* id0 signed with the empty secret                                                              *)
+SgKeys == {"id0", "id1", "id0v2", "id1v2", "id0wrongsecret", "unknown", "noid", "noidsecret", "id0nosecret"}
 SgAges == {"fresh", "tooOld", "future"}
+(* the access keys of the current spec: which secret version of each id is configured, or "gone" *)
+AkIds    == {"id0", "id1"}
+AkTables == [AkIds -> {"v1", "v2", "gone"}]
+Aks0     == [i \in AkIds |-> "v1"]
+SgCred(k) == CASE k = "id0" -> <<"id0", "v1">> [] k = "id1" -> <<"id1", "v1">>
+               [] k = "id0v2" -> <<"id0", "v2">> [] k = "id1v2" -> <<"id1", "v2">>
+               [] OTHER -> <<"-", "-">>
+(* the credential material of a spec: the configured JWT secret, the access keys *)
+Mats == [jsec : {"k0", "k1"}, aks : AkTables]
+Mat0 == [jsec |-> "k0", aks |-> Aks0]
 
 (* Basic credentials: user uPlain has a password without ':', uColon's password contains ':'.  *)
 (* Each user has two passwords, version "v1" (initially configured) and "v2" (after a password  *)
@@ -84,8 +110,9 @@ BsUsers == {"uPlain", "uColon", "unknown"}
 KnownUsers == {"uPlain", "uColon"}
 UserTables == [KnownUsers -> {"v1", "v2", "gone"}]
 Users0     == [u \in KnownUsers |-> "v1"]
-(* the environment a request meets *)
-Env(t, us) == [now |-> t, users |-> us]
+(* what a request meets: the configuration and material of the running generation, the clock,  *)
+(* the user table                                                                               *)
+Env(c, t, us, m) == [cfg |-> c, now |-> t, users |-> us, jsec |-> m.jsec, aks |-> m.aks]
 BsPws   == {"right", "wrong", "rightColonX", "prefix", "empty", "nocolon"}
    \* rightColonX: the right password followed by ":" and more; prefix: the part of uColon's
    \* password before its first ':'; nocolon: credentials without any ':' at all
@@ -112,7 +139,7 @@ VHdr(c, r) ==
 (* iat: the property does not mention it.  It never rescues a token that is invalid otherwise; *)
 (* an otherwise valid token "issued in the future" is free (the library rejects it).            *)
 VTok(c, t, e) ==
-    IF ~(t.key = "k0" /\ t.alg = c.jwt.alg /\ t.halg = c.jwt.alg /\ t.mut = "none") THEN "bad"
+    IF ~(t.key = e.jsec /\ t.alg = c.jwt.alg /\ t.halg = c.jwt.alg /\ t.mut = "none") THEN "bad"
     ELSE IF t.nbf # -1 /\ e.now < t.nbf THEN "bad"
     ELSE IF t.exp # -1 /\ e.now > t.exp THEN "bad"
     ELSE IF t.exp # -1 /\ e.now = t.exp THEN "free"
@@ -132,8 +159,9 @@ VJwt(c, r, e) ==
 (* signature: "from a known access key, within its TTL, that matches the method, path, query,   *)
 (* signed headers and the body that will actually be forwarded".                                *)
 Covered(c) == {"method", "path", "pathenc", "query", "sheader", "sig"} \cup (IF c.sig.excl THEN {} ELSE {"body"})
-VSg(c, s) ==
-    IF /\ s.key \in {"id0", "id1"}
+SgKnown(k, e) == SgCred(k)[1] \in AkIds /\ e.aks[SgCred(k)[1]] = SgCred(k)[2]
+VSg(c, s, e) ==
+    IF /\ SgKnown(s.key, e)                                   \* a key of the CURRENT spec, its current secret
        /\ (c.sig.ttl => s.age = "fresh")                      \* no ttl configured: no age limit
        /\ (s.carrier = "query" => s.pexp = "live")            \* a presigned URL has its own expiry
        /\ (\A p \in Covered(c) : ~s.mut[p])
@@ -143,11 +171,11 @@ VSg(c, s) ==
 (* carriers: Authorization header, else the query.  A presigned query next to an Authorization  *)
 (* header that holds some other credential: the property does not say which one is "the"        *)
 (* signature of the request (the code, like AWS, only looks at the header) -> free.             *)
-VSig(c, r) ==
+VSig(c, r, e) ==
     IF ~r.sg.p THEN "bad"
-    ELSE IF r.sg.carrier = "header" THEN VSg(c, r.sg)
-    ELSE IF r.auth = "none" THEN VSg(c, r.sg)
-    ELSE IF VSg(c, r.sg) = "bad" THEN "bad" ELSE "free"
+    ELSE IF r.sg.carrier = "header" THEN VSg(c, r.sg, e)
+    ELSE IF r.auth = "none" THEN VSg(c, r.sg, e)
+    ELSE IF VSg(c, r.sg, e) = "bad" THEN "bad" ELSE "free"
 
 (* basic: "Basic credentials equal to a configured user's": the user is in the table NOW and the *)
 (* presented password is exactly its current one.  Without a mode there is no user source,      *)
@@ -163,7 +191,7 @@ Enabled(c, m) == CASE m = "hdr" -> c.hdr # "off" [] m = "jwt" -> c.jwt.on [] m =
                    [] m = "basic" -> c.basic # "off"
 V(c, r, e, m) == IF ~Enabled(c, m) THEN "off"
                  ELSE CASE m = "hdr" -> VHdr(c, r) [] m = "jwt" -> VJwt(c, r, e)
-                        [] m = "sig" -> VSig(c, r) [] m = "basic" -> VBasic(c, r, e)
+                        [] m = "sig" -> VSig(c, r, e) [] m = "basic" -> VBasic(c, r, e)
 
 (* the verdict: "accept" / "reject" / "free" *)
 Verdict(c, r, e) ==
@@ -200,61 +228,74 @@ Mutants(c, r) ==
     \cup (IF c.hdr # "off" /\ Len(r.hv) = 1 THEN {[r EXCEPT !.hv = <<"neither">>]} ELSE {})
 
 ----------------------------------------------------------------------------------------------
-VARIABLES cfg,     \* the configuration (constant along a behaviour)
+VARIABLES cfg,     \* the configuration of the running generation (changes only by Reconfigure)
+          mat,     \* the credential material of its spec (changes only by Reconfigure)
           now,     \* the clock (ticks)
-          users,   \* the table of Basic-auth users (changes only in ETCD mode, by Sync)
+          users,   \* the table of Basic-auth users (changes by Sync in ETCD mode, and by Reconfigure)
           req,     \* the request presented last
           res,     \* the observation for it
-          at,      \* the environment in which it was presented
+          at,      \* the configuration and environment in which it was presented
           n,       \* number of requests presented so far
-          ns       \* number of snapshots delivered so far
+          ns,      \* number of snapshots delivered so far
+          nr       \* number of hot updates so far
 
-vars == <<cfg, now, users, req, res, at, n, ns>>
+vars == <<cfg, mat, now, users, req, res, at, n, ns, nr>>
+Cur  == Env(cfg, now, users, mat)        \* what a request presented now meets
 
 NoReq == [hv |-> <<>>, auth |-> "none", tok |-> NoTok, ck |-> NoTok, sg |-> NoSg, bs |-> NoBs]
 NoRes == [acc |-> FALSE, status |-> -1, intact |-> TRUE]
 
-Init == /\ cfg \in Cfgs /\ now = Now0 /\ users = Users0 /\ req = NoReq /\ res = NoRes
-        /\ at = Env(Now0, Users0) /\ n = 0 /\ ns = 0
+Init == /\ cfg \in Cfgs /\ mat = Mat0 /\ now = Now0 /\ users = Users0 /\ req = NoReq /\ res = NoRes
+        /\ at = Env(cfg, Now0, Users0, Mat0) /\ n = 0 /\ ns = 0 /\ nr = 0
 
 (* Validator.Handle on request r in the current environment, observed as o *)
-PresentAny(r, o) == /\ req' = r /\ res' = o /\ at' = Env(now, users) /\ n' = n + 1
-                    /\ UNCHANGED <<cfg, now, users, ns>>
-Present(r) == n < MaxPresent /\ \E o \in Outcomes(cfg, r, Env(now, users)) : PresentAny(r, o)
-Advance(d) == now + d <= MaxNow /\ now' = now + d /\ UNCHANGED <<cfg, users, req, res, at, n, ns>>
+PresentAny(r, o) == /\ req' = r /\ res' = o /\ at' = Cur /\ n' = n + 1
+                    /\ UNCHANGED <<cfg, mat, now, users, ns, nr>>
+Present(r) == n < MaxPresent /\ \E o \in Outcomes(cfg, r, Cur) : PresentAny(r, o)
+Advance(d) == now + d <= MaxNow /\ now' = now + d /\ UNCHANGED <<cfg, mat, users, req, res, at, n, ns, nr>>
 (* etcdUserCache's watcher goroutine receives a snapshot of the credentials and swaps the table *)
 (* (one atomic step: htpasswd.File.ReloadFromReader replaces the map under its mutex)           *)
 Sync(t) == /\ cfg.basic = "etcd" /\ ns < MaxSync /\ t # users
-           /\ users' = t /\ ns' = ns + 1 /\ UNCHANGED <<cfg, now, req, res, at, n>>
+           /\ users' = t /\ ns' = ns + 1 /\ UNCHANGED <<cfg, mat, now, req, res, at, n, nr>>
+(* hot update (pipeline.reload): a new Validator is created from the new spec x.cfg / x.mat and   *)
+(* initialised with Inherit(running generation), the running generation is closed; from then on  *)
+(* requests meet the new generation.  x.users: what the Basic source of the new spec holds (a new *)
+(* user file, the store under the new prefix).  One atomic step as far as requests are concerned *)
+(* (the pipeline swaps the generation pointer).  The new spec is arbitrary - also the same.      *)
+Reconfigure(x) == /\ nr < MaxReconf
+                  /\ cfg' = x.cfg /\ mat' = x.mat /\ users' = x.users /\ nr' = nr + 1
+                  /\ UNCHANGED <<now, req, res, at, n, ns>>
 
 Next == \/ (n < MaxPresent /\ \E r \in Reqs(cfg) : Present(r))
         \/ Advance(1)
         \/ \E t \in UserTables : Sync(t)
+        \/ \E x \in Recfgs(cfg, Cur) : Reconfigure(x)
 Spec == Init /\ [][Next]_vars
 
 ----------------------------------------------------------------------------------------------
 (* Theorems of the contract (checked by TLC).                                                   *)
 
 Presented == n > 0 /\ res.status # -1
+pcfg == at.cfg       \* the configuration the last request met (cfg may have been updated since)
 
 (* soundness/completeness restated on the observation *)
-OnlyIfAllAccept == Presented /\ res.acc => \A m \in Methods : V(cfg, req, at, m) # "bad"
-Complete == Presented /\ (\A m \in Methods : V(cfg, req, at, m) \in {"ok", "off"}) /\ ~res.acc => FALSE
+OnlyIfAllAccept == Presented /\ res.acc => \A m \in Methods : V(pcfg, req, at, m) # "bad"
+Complete == Presented /\ (\A m \in Methods : V(pcfg, req, at, m) \in {"ok", "off"}) /\ ~res.acc => FALSE
 RejectShape == Presented /\ ~res.acc => res.status \in {400, 401}
 AcceptShape == Presented /\ res.acc => res.status = 0 /\ res.intact
 
 (* the single-mutation theorem: every single mutation of a covered part of a request that MUST  *)
 (* be accepted yields a request that MUST be rejected                                           *)
 SingleMutationRejected ==
-    Presented /\ Verdict(cfg, req, at) = "accept" =>
-        \A m \in Mutants(cfg, req) : Verdict(cfg, m, at) = "reject"
+    Presented /\ Verdict(pcfg, req, at) = "accept" =>
+        \A m \in Mutants(pcfg, req) : Verdict(pcfg, m, at) = "reject"
 
 (* iat never rescues: whatever the iat claim, a token that is invalid with iat absent is invalid *)
 IatNeverRescues ==
-    Presented /\ cfg.jwt.on =>
+    Presented /\ pcfg.jwt.on =>
         \A i \in Iats : LET r2 == [req EXCEPT !.tok.iat = i, !.ck.iat = i] IN
-            V(cfg, [req EXCEPT !.tok.iat = "absent", !.ck.iat = "absent"], at, "jwt") = "bad"
-                => V(cfg, r2, at, "jwt") = "bad"
+            V(pcfg, [req EXCEPT !.tok.iat = "absent", !.ck.iat = "absent"], at, "jwt") = "bad"
+                => V(pcfg, r2, at, "jwt") = "bad"
 
 (* temporal part, clock: once the clock has passed exp, a token that was accepted is rejected;  *)
 (* a token is never accepted before its nbf                                                     *)
@@ -264,30 +305,52 @@ AcceptedThenExpired ==
     [][ (Presented /\ res.acc /\ cfg.jwt.on /\ n' = n + 1 /\ req' = req /\ SingleTok(cfg, req)
            /\ PresentedTok(cfg, req).exp # -1 /\ now' > PresentedTok(cfg, req).exp) => ~res'.acc ]_vars
 NotBeforeNbf ==
-    Presented /\ res.acc /\ cfg.jwt.on /\ SingleTok(cfg, req) /\ PresentedTok(cfg, req).p
-        /\ PresentedTok(cfg, req).nbf # -1 => at.now >= PresentedTok(cfg, req).nbf
+    Presented /\ res.acc /\ pcfg.jwt.on /\ SingleTok(pcfg, req) /\ PresentedTok(pcfg, req).p
+        /\ PresentedTok(pcfg, req).nbf # -1 => at.now >= PresentedTok(pcfg, req).nbf
 NeverAfterExp ==
-    Presented /\ res.acc /\ cfg.jwt.on /\ SingleTok(cfg, req) /\ PresentedTok(cfg, req).p
-        /\ PresentedTok(cfg, req).exp # -1 => at.now <= PresentedTok(cfg, req).exp
+    Presented /\ res.acc /\ pcfg.jwt.on /\ SingleTok(pcfg, req) /\ PresentedTok(pcfg, req).p
+        /\ PresentedTok(pcfg, req).exp # -1 => at.now <= PresentedTok(pcfg, req).exp
 
 (* temporal part, credentials: a request that was accepted is rejected when presented again     *)
 (* after its user was removed or its password changed; nobody gets in when the table is empty;  *)
 (* conversely the new password of a user works as soon as the snapshot is applied               *)
-BasicOn == cfg.basic \in {"file", "etcd"}
+BasicOn     == cfg.basic \in {"file", "etcd"}
+BasicWasOn  == pcfg.basic \in {"file", "etcd"}
 AcceptedThenRevoked ==
     [][ (Presented /\ res.acc /\ BasicOn /\ n' = n + 1 /\ req' = req /\ req.bs.user \in KnownUsers
            /\ users[req.bs.user] # req.bs.ver) => ~res'.acc ]_vars
 OnlyCurrentCredentials ==
-    Presented /\ res.acc /\ BasicOn =>
+    Presented /\ res.acc /\ BasicWasOn =>
         req.auth = "basic" /\ req.bs.user \in KnownUsers /\ at.users[req.bs.user] = req.bs.ver
 EmptyTableRejectsAll ==
-    Presented /\ BasicOn /\ (\A u \in KnownUsers : at.users[u] = "gone") => ~res.acc
+    Presented /\ BasicWasOn /\ (\A u \in KnownUsers : at.users[u] = "gone") => ~res.acc
+
+(* temporal part, hot updates: what a generation admits depends on ITS spec only.  A request that *)
+(* was accepted and is presented again after a hot update is rejected when its token was not     *)
+(* made with the now configured secret and algorithm / its access key is not configured any more *)
+(* or has another secret now; and whatever a previous generation accepted, an accepted token is  *)
+(* one of the current secret and algorithm, an accepted signature one of a current access key    *)
+AcceptedThenRotated ==
+    [][ (Presented /\ res.acc /\ n' = n + 1 /\ req' = req /\ nr > 0
+           /\ \/ cfg.jwt.on /\ SingleTok(cfg, req)
+                 /\ (PresentedTok(cfg, req).key # mat.jsec \/ PresentedTok(cfg, req).alg # cfg.jwt.alg)
+              \/ cfg.sig.on /\ ~SgKnown(req.sg.key, Cur)) => ~res'.acc ]_vars
+OnlyCurrentSecret ==
+    Presented /\ res.acc /\ pcfg.jwt.on /\ SingleTok(pcfg, req) =>
+        LET t == PresentedTok(pcfg, req) IN t.p /\ t.key = at.jsec /\ t.alg = pcfg.jwt.alg /\ t.halg = pcfg.jwt.alg
+OnlyCurrentAccessKeys ==
+    Presented /\ res.acc /\ pcfg.sig.on => req.sg.p /\ SgKnown(req.sg.key, at)
+(* the empty access key id is never a configured one *)
+NoAnonymousSigner ==
+    Presented /\ res.acc /\ pcfg.sig.on => req.sg.key \notin {"noid", "noidsecret", "id0nosecret"}
 
 ----------------------------------------------------------------------------------------------
 (* Implementation-shaped layer: Validator.Handle as the code computes it, on the same abstract  *)
-(* records.  Handle is one atomic step (no state shared between requests), so this layer is a   *)
-(* function; `repaired` selects the code after fixes/validator-*.diff (TRUE) or the pinned tree *)
-(* (FALSE).  TLC checks that it refines the contract (ImplRes \in Outcomes): for the repaired    *)
+(* records.  Handle is one atomic step (no state shared between requests) and Inherit is        *)
+(* reload(): every sub-validator is rebuilt from the new spec, nothing is taken over from the   *)
+(* previous generation - so this layer is a function of the running generation's spec and the   *)
+(* environment.  `repaired` selects the code after fixes/validator-*.diff (TRUE) or the pinned  *)
+(* tree (FALSE).  TLC checks that it refines the contract (ImplRes \in Outcomes): for the repaired    *)
 (* code as an invariant; for the pinned code the vectors where it does not are design-level     *)
 (* LEADS (F9, F10 of DESIGN 6) which become findings only when the real code reproduces them.   *)
 (* This layer never produces a verdict.                                                         *)
@@ -302,7 +365,7 @@ IJwt(c, r, e) ==
     LET t == IF c.jwt.cookie /\ r.ck.p THEN r.ck ELSE IF r.auth = "bearer" THEN r.tok ELSE NoTok IN
     /\ t.p
     /\ t.halg = c.jwt.alg                                   \* key function
-    /\ t.alg = t.halg /\ t.key = "k0" /\ t.mut = "none"     \* MAC under the header's method
+    /\ t.alg = t.halg /\ t.key = e.jsec /\ t.mut = "none"   \* MAC under the header's method, configured secret
     /\ (t.exp = -1 \/ e.now <= t.exp) /\ (t.nbf = -1 \/ e.now >= t.nbf)
     /\ t.iat # "future"                                     \* "Token used before issued"
 
@@ -310,13 +373,13 @@ IJwt(c, r, e) ==
 (* ttl, presign expiry, key lookup; then the signature is recomputed over method, canonical URI,  *)
 (* canonical query, the signed headers and the body hash.  Pinned tree: the body hash is taken    *)
 (* from http.Request.Body, which FetchPayload has drained: always the hash of the empty string.   *)
-ISig(c, r, repaired) ==
+ISig(c, r, e, repaired) ==
     LET s == r.sg IN
     /\ s.p
     /\ IF r.auth # "none" THEN r.auth = "sig" ELSE s.carrier = "query"
     /\ (c.sig.ttl => s.age = "fresh")
     /\ (s.carrier = "query" => s.pexp = "live")
-    /\ s.key \in {"id0", "id1"}                              \* known id (GetSecret) and MAC key right
+    /\ SgKnown(s.key, e)                                     \* known id (GetSecret) and MAC key right
     /\ ~s.mut["method"] /\ ~s.mut["path"] /\ ~s.mut["pathenc"] /\ ~s.mut["query"]   \* EscapedPath, escaped again
     /\ ~s.mut["sheader"] /\ ~s.mut["sig"]
     /\ IF c.sig.excl THEN s.cexcl                            \* both sides UNSIGNED-PAYLOAD
@@ -339,14 +402,14 @@ IBasic(c, r, e, repaired) ==
 ImplRes(c, r, e, repaired) ==
     IF c.hdr # "off" /\ ~IHdr(c, r) THEN [acc |-> FALSE, status |-> 400, intact |-> TRUE]
     ELSE IF c.jwt.on /\ ~IJwt(c, r, e) THEN [acc |-> FALSE, status |-> 401, intact |-> TRUE]
-    ELSE IF c.sig.on /\ ~ISig(c, r, repaired) THEN [acc |-> FALSE, status |-> 401, intact |-> TRUE]
+    ELSE IF c.sig.on /\ ~ISig(c, r, e, repaired) THEN [acc |-> FALSE, status |-> 401, intact |-> TRUE]
     ELSE IF c.basic # "off" /\ ~IBasic(c, r, e, repaired) THEN [acc |-> FALSE, status |-> 401, intact |-> TRUE]
     ELSE AcceptRes
 
 (* (a mode-less basicAuth cannot be instantiated - refused by the spec validation -, so the skipped *)
 (* check of IBasic is not reachable: lead F11 of DESIGN 6 does not reproduce)                    *)
 ImplRefines(repaired) ==
-    Presented /\ cfg.basic # "nomode" => ImplRes(cfg, req, at, repaired) \in Outcomes(cfg, req, at)
+    Presented /\ pcfg.basic # "nomode" => ImplRes(pcfg, req, at, repaired) \in Outcomes(pcfg, req, at)
 RepairedImplRefines == ImplRefines(TRUE)
 PinnedImplRefines   == ImplRefines(FALSE)      \* expected to FAIL on the pinned tree: the leads
 =============================================================================
